@@ -14,7 +14,7 @@ RULE = ("every (sequences, custom distance, max_edits, max_custom_distance, engi
         "naively; both CSV tables are checked entry by entry; non-trivial = expected set non-empty")
 ASSUMPTIONS = ["pwseqdist is absent: /verif/standins/pwseqdist supplies apply_pairwise_sparse + nb_vector_tcrdist (own implementation); what is decided is pyrepseq's composition (candidate search, positional lookup, V table, chain sum, radius), not pwseqdist",
                "custom distances are symmetric with d(x,x)=0 as the property requires"]
-REQUIRED_CLASSES = {"all": ["lev-ok-custom-too-far", "custom-ok-lev-too-far", "real-valued-distance", "infinite-max_custom_distance", "tcrdist-empty-result", "tcrdist-chain-both", "vtable-entry", "history-changes-distance-function", "library-function-object-as-distance", "tcrdist-kwargs-history"]}
+REQUIRED_CLASSES = {"all": ["lev-ok-custom-too-far", "custom-ok-lev-too-far", "real-valued-distance", "infinite-max_custom_distance", "tcrdist-empty-result", "tcrdist-chain-both", "vtable-entry", "history-changes-distance-function", "library-function-object-as-distance", "tcrdist-kwargs-history", "kdtree-radius-boundary", "tcrdist-large-table"]}
 MIN_OUTCOMES = 10
 
 INF = float("inf")
@@ -123,6 +123,11 @@ def spaces(tier):
                         yield ("uni2", alpha, L, cname, k, eng)
                 yield ("uni2", alpha, min(L, 4), cname, 1, "LookupDB")
 
+    def gen_boundary():
+        for k in range(1, 13):
+            yield ("kdboundary", k)
+        yield ("tcr-large", 40)
+
     def gen_lists():
         for seqs in E.lists(E.universe("AC", 2), 3):
             for cname in tuple(CUSTOM) + LIB_FUNCS:
@@ -167,6 +172,7 @@ def spaces(tier):
 
     return [
         Space("custom-distance-universes", gen_uni, "U(AC,5|7), U(ACD,4|5) as one list x 7 custom distances x max_edits in 1..2 x 8 max_custom_distance values x engines (hash_based/LookupDB k=1 on smaller universes)", per_case=True),
+        Space("kdtree-radius-boundary-and-large-table", gen_boundary, "x^k.C vs y^k.C families (composition distance exactly sqrt(2)*k) for k = 1..12 on kdtree with callable distances; a 40-row TCR table (> 1000 candidate pairs) with max_tcrdist placed on occurring distance values", per_case=True),
         Space("custom-distance-all-lists", gen_lists, "Lists(U(AC,2),3) x 7 custom distances x max_edits in 1..2 x 8 max_custom_distance x 4 self engines + 3 two-collection engines (query = reversed list)"),
         Space("tcrdist-tables", gen_tcr, "all multisets of 2 rows (and a fixed residue class of the 3[,4]-row multisets) over a row alphabet of beta/alpha V alleles x CDR3s; chain x edit_on_trimmed x max_edits in 1..2 x max_tcrdist in {0,12,24,1000}; shifted index", shards=64),
         Space("index-object-histories", gen_hist, "every sequence of 1..2 (quick) / 1..3 (thorough) look-ups with distance in {default, hamming, 4 callables} x max_custom_distance in {inf, 1} on one live SymdelDB / LookupDB (2 references x 2 query lists), each answer compared with the reference", shards=32),
@@ -255,6 +261,16 @@ def check_case(case, acc):
         _check_history(acc, case)
     elif kind == "tcrhist":
         _check_tcr_history(acc, case)
+    elif kind == "kdboundary":
+        k = case[1]
+        acc.cls("kdtree-radius-boundary")
+        seqs = ["A" * k + "C", "D" * k + "C", "W" * k + "C", "A" * k + "CC", "Y" * k, "A" * k, "CASS" + "A" * k + "QYF", "CASS" + "G" * k + "QYF"]
+        for kk in sorted({k, max(1, k - 1), k + 1}):
+            for cname in ("halflev", "lev", "lendiff"):
+                for maxcd in (INF, kk / 2):
+                    _cmp(acc, case, "kdtree", seqs, kk, cname, maxcd, None, True)
+    elif kind == "tcr-large":
+        _check_tcr_large(acc, case)
     elif kind == "vtable":
         _check_vtable(acc, case)
     elif kind == "tcr":
@@ -416,6 +432,45 @@ def _check_tcr_one(acc, rows, chain, trimmed, k, mt, index):
         acc.ok(("tcr", chain, trimmed, k, mt, tuple(sorted(trip))), nontrivial=bool(exp))
     else:
         acc.fail("nearest_neighbor_tcrdist/%s/%s" % (chain, bad[0]), case, sorted(exp), sorted(trip), note=str(bad))
+
+
+def _check_tcr_large(acc, case):
+    """more than 1000 candidate pairs; the radius is put exactly on distance values that occur (<= must be inclusive)"""
+    import numpy as np
+    import pandas as pd
+    import pyrepseq
+    n = case[1]
+    acc.cls("tcrdist-large-table")
+    base = "CASSLGQAYEQYF"
+    subs = "ADEGHKLNQRSTV"
+    cdr3b = [base[:6] + subs[i % len(subs)] + base[7:] if i % 3 else base for i in range(n)]
+    cdr3a = ["CAVRDSNYQLIW" if i % 4 else "CAVRDSNYKLIW" for i in range(n)]
+    df = pd.DataFrame({"TRBV": [BV[i % 2] for i in range(n)], "CDR3B": cdr3b, "TRAV": [AV[0] if i % 5 else AV[1] for i in range(n)], "CDR3A": cdr3a})
+    rows_like = None
+    import pwseqdist
+    vb, va = _vt("beta"), _vt("alpha")
+
+    def term(i, j, ch):
+        if ch == "beta":
+            return vb[(df.TRBV[i], df.TRBV[j])] + pwseqdist.reference_tcrdist_cdr3(cdr3b[i], cdr3b[j])
+        return va[(df.TRAV[i], df.TRAV[j])] + pwseqdist.reference_tcrdist_cdr3(cdr3a[i], cdr3a[j])
+    for chain in ("both", "beta"):
+        cand = [(i, j) for i in range(n) for j in range(n) if i != j and ref_lev(cdr3b[i][3:-2], cdr3b[j][3:-2]) <= 2]
+        tot = {(i, j): term(i, j, "beta") + (term(i, j, "alpha") if chain == "both" else 0) for i, j in cand}
+        radii = sorted(set(tot.values()))
+        for mt in [radii[0], radii[len(radii) // 2], radii[-1]] + [0]:
+            exp = {(i, j, float(d)) for (i, j), d in tot.items() if d <= mt}
+            res = acc.call(pyrepseq.nearest_neighbor_tcrdist, df, chain=chain, max_edits=2, max_tcrdist=mt)
+            if raised(res):
+                acc.fail("nearest_neighbor_tcrdist/large-table/raised-%s" % res.type, case, len(exp), res)
+                return
+            arr = np.asarray(res)
+            trip = [(int(r[0]), int(r[1]), float(r[2])) for r in arr.reshape(-1, 3)] if arr.size else []
+            bad = diagnose(trip, exp)
+            if bad is not None:
+                acc.fail("nearest_neighbor_tcrdist/large-table/%s" % bad[0], case, len(exp), len(trip), note="chain=%s max_tcrdist=%s candidates=%d: %s" % (chain, mt, len(cand), bad[1]))
+                return
+            acc.ok(("tcrL", chain, mt, len(trip)), nontrivial=bool(exp))
 
 
 def neighbors_any(rows, chain, trimmed, k):
